@@ -4,6 +4,7 @@ import EmmetProofs.CssMatchRanges
 import EmmetProofs.HtmlAttrs
 import EmmetProofs.HtmlMatchHead
 import EmmetProofs.HtmlOutwardNested
+import EmmetProofs.HtmlInwardNested
 /-! # C16 — scanners are total and report only well-formed ranges (HTML scanner, CSS scanner, split_value; all strings) -/
 namespace EmmetProps
 open H
@@ -68,6 +69,11 @@ theorem C16_html_outward_contains (xml : Bool) (pos : Int) (s : Str) (special : 
 rests on the order theorem of the scanner (`C16_html_scan`) and the stack discipline of the callback -/
 theorem C16_html_outward_nested (xml : Bool) (pos : Int) (s : Str) (special : List (Str × Option (List Str))) :
     (outwardLoop xml pos (scan s special) [] []).Pairwise (fun inner outer => inner.Inside outer) := H.outward_nested xml pos s special
+
+/-- HTML: successive `balanced_inward()` entries lie strictly inside each other (the element, then its chain of first children) — for
+EVERY source, position and mode -/
+theorem C16_html_inward_nested (xml : Bool) (pos : Int) (s : Str) (special : List (Str × Option (List Str))) :
+    ChainOK (inwardLoop xml pos (scan s special) []) := H.inward_nested xml pos s special
 
 example : (outwardLoop false 8 (scan ("<div><p>x</p></div>".toList.map Char.toNat)) [] []).length = 2 := by decide +kernel
 
